@@ -18,6 +18,36 @@ Import ListNotations.
 From Stam Require Import Model.Cbor.
 Local Open Scope string_scope.
 
+(* The body of a struct / variant, said without the control flow of the generated code: an array
+   with one slot per index up to the highest index of a non-nil field; slot i holds the field
+   whose index is i, or null when there is none; [] when every field is nil.
+   (Proofs.Cbor.enc_rec_is_spec: the derive's sorted fields + max test + gap filling writes
+   exactly this when the indices are unique.) *)
+(* highest index of a non-skipped field whose value is not nil *)
+Fixpoint max_idx (fs : list field) (nils : list bool) : option nat :=
+  match fs, nils with
+  | f :: fr, b :: br =>
+      let m := max_idx fr br in
+      match f_idx f with
+      | Some i => if b then m else match m with Some j => Some (Nat.max i j) | None => Some i end
+      | None => m
+      end
+  | _, _ => None
+  end.
+
+Definition enc_slot (fs : list field) (encs : list (list tok)) (i : nat) : list tok :=
+  match find_fld fs i with
+  | Some (p, _) => nth p encs []
+  | None => [TNull]
+  end.
+
+Definition enc_rec_spec (fs : list field) (encs : list (list tok)) (nils : list bool) : list tok :=
+  match max_idx fs nils with
+  | None => [TArr 0]
+  | Some m => TArr (S m) :: flat_map (enc_slot fs encs) (seq 0 (S m))
+  end.
+
+
 Definition reload (S : schema) (t : ty) (v : value) : value := erase S t v.
 
 Definition allowed_erased : list (ident * ident) := Eval vm_compute in
